@@ -25,6 +25,42 @@ def build_harness(ctx):
     return (exe if rc == 0 else None), log
 
 
+MEM_LIMIT = 4 << 30     # address-space limit of every child (harness, driver)
+
+
+def run_limited(cmd, env=None, timeout=600, cwd=None):
+    """Run a child under RLIMIT_AS and a hard wall-clock timeout; returns (rc, output)."""
+    import resource
+    import subprocess
+
+    def lim():
+        resource.setrlimit(resource.RLIMIT_AS, (MEM_LIMIT, MEM_LIMIT))
+    try:
+        p = subprocess.run(cmd, cwd=cwd, env=env, stdout=subprocess.PIPE, stderr=subprocess.STDOUT,
+                           timeout=timeout, preexec_fn=lim)
+        return p.returncode, p.stdout.decode("utf-8", "replace")
+    except subprocess.TimeoutExpired as ex:
+        return 124, (ex.stdout or b"").decode("utf-8", "replace") + "\n[killed: timeout after %ss]" % timeout
+
+
+def build_driver():
+    return vlib.build_ocaml_driver("c12_driver", os.path.join(vlib.COQ, "extracted"),
+                                   os.path.join(HERE, "driver", "c12_driver.ml"), extra_pkgs=("zarith", "unix"),
+                                   only=["c12_model"])
+
+
+def merge_summaries(parts):
+    d = {"hist": {}, "fails": [], "samples": [], "cases": 0, "nontrivial": 0, "evaluations": 0}
+    for p in parts:
+        for k, v in p["hist"].items():
+            d["hist"][k] = d["hist"].get(k, 0) + v
+        d["fails"] += p["fails"]
+        d["samples"] += p["samples"]
+        for k in ("cases", "nontrivial", "evaluations"):
+            d[k] += p.get(k, 0)
+    return d
+
+
 def parse_summary(path):
     d = {"hist": {}, "fails": [], "samples": []}
     if not os.path.exists(path):
@@ -48,8 +84,7 @@ def run(ctx):
     ctx.level = "proof"
     status = vlib.proof_status(PID, extra_targets=["C12/Extract.v"])
     ctx.proof_gate(status)
-    drv = vlib.build_ocaml_driver("c12_driver", os.path.join(vlib.COQ, "extracted"),
-                                  os.path.join(HERE, "driver", "c12_driver.ml"), only=["c12_model"])
+    drv = build_driver()
     exe, blog = build_harness(ctx)
     if exe is None:
         ctx.violation("harness-build-failed", "Go harness does not build against the repository: " + blog[-800:],
@@ -59,13 +94,15 @@ def run(ctx):
     out = os.path.join(ctx.scratch, "c12_cases.txt")
     env = vlib.goenv()
     ncases = 150 if ctx.tier == "quick" else 12000
-    env.update({"VERIF_SEED": str(ctx.seed), "VERIF_CASES": str(ncases)})
+    quick = ctx.tier == "quick"
+    env.update({"VERIF_SEED": str(ctx.seed), "VERIF_CASES": str(ncases), "VERIF_BUDGET_S": "50" if quick else "1500",
+                "VERIF_DRIVER_BUDGET_S": "40" if quick else "1500"})
     if ctx.replay:
         r = json.load(open(ctx.replay))
         rs = (r.get("replay") or {}).get("case_seed")
         if rs:
             env["VERIF_REPLAY"] = str(rs)
-    rc, log = vlib.sh([exe, "c12", out], env=env, timeout=3000)
+    rc, log = run_limited([exe, "c12", out], env=env, timeout=90 if quick else 3000)
     if rc != 0 or not os.path.exists(out + ".summary"):
         m = re.search(r"panic: .*|fatal error: .*", log)
         ctx.violation("impl-run-failed", "harness run failed (%s): %s" % (m.group(0) if m else "rc=%d" % rc, log[-800:]),
@@ -78,9 +115,12 @@ def run(ctx):
         ctx.violation(sig, "C12 fails on the implementation: " + desc,
                       {"case_seed": replay, "how": "./check C12 --replay <this file> (rebuilds the network from case_seed)", "detail": desc})
     # ---- model side
-    rc2, mlog = vlib.sh([drv, out], timeout=3000)
+    rc2, mlog = run_limited([drv, out], env=env, timeout=80 if quick else 3000)
     m = re.search(r"CHECKS (\d+) MISMATCHES (\d+) WFFAIL (\d+)", mlog)
     checks, mism, wff = (int(m.group(1)), int(m.group(2)), int(m.group(3))) if m else (0, -1, -1)
+    if checks <= 0 and not ctx.replay:
+        ctx.violation("c12-no-model-checks", "the model side of the check did not run (driver rc=%s): %s" % (rc2, mlog[-600:]),
+                      {"driver_output": mlog[-3000:]}, found_input=False)
     known_sigs = {k["signature"] for k in ctx.known_open}
     new_fails = [f for f in summ["fails"] if f[0] not in known_sigs]
     if (mism != 0 or wff != 0) and not new_fails:
@@ -105,6 +145,9 @@ def run(ctx):
         "model_checks": checks,
         "model_mismatches": mism,
         "model_wf_failures": wff,
+        "budget_exhausted": bool(summ["hist"].get("budget-exhausted")) or "BUDGET exhausted" in mlog,
+        "hypotheses_on_api_built_networks": (lambda md: {"wfb_true": summ.get("cases", 0) - sum(1 for l in mlog.split("\n") if l.startswith("WFFAIL orig")),
+                                                          "in_domain_true": int(md.group(1)), "in_domain_false": int(md.group(2))} if md else {})(re.search(r"DOMAIN in (\d+) out (\d+)", mlog)),
         "property_predicate_failures": sorted(s for s, _, _ in summ["fails"]),
         "samples": summ["samples"][:2] or ["(no sample)"],
         "exhaustive": False,
